@@ -415,6 +415,11 @@ def run(ctx):
         r5.check(v in qtd, f"aliases.select[{k!r}]", f"select command maps to a type of the table ({v!r})", "pyxform/aliases.py")
     rules.append(r5)
 
+    for typ, (btype, preload, pparams) in sorted(spec.PRELOAD_SPEC.items()):
+        b = (qtd.get(typ) or {}).get("bind") or {}
+        got = (b.get("type"), b.get("jr:preload"), b.get("jr:preloadParams"))
+        r5.check(got == (btype, preload, pparams) and not (qtd.get(typ) or {}).get("control"), f"metadata type {typ!r}", f"bind type {btype}, jr:preload={preload}, jr:preloadParams={pparams}, no control",
+                 "pyxform/question_type_dictionary.py", why_fail=f"table has {got}")
     # ------------------------------------------------------------------ R6
     r6 = Rule("C04", "C04.R6", "parameter / appearance wiring and allowed-parameter tuples", floor=20,
               necessary="a parameter written to the wrong attribute, accepted but ignored, or consumed without being allowed")
